@@ -408,6 +408,10 @@ func run(r *core.Run) int {
 		if a.Entry != "validate" {
 			a.CRLRoute, b.CRLRoute = "http", "http"
 		}
+		if a.Entry == "validate" && a.CRLRoute == "http" && i%4 == 1 {
+			// a real HTTPFetcher with a cache that the first call may fill
+			a.Cache, b.Cache = "healthy", "healthy"
+		}
 		a.Plans, b.Plans = make([]sims.CertPlan, l), make([]sims.CertPlan, l)
 		for pos := 0; pos < l-1; pos++ {
 			nO, nC := hrng.IntN(3), hrng.IntN(3)
